@@ -211,6 +211,26 @@ def run(ctx):
             ctx.violation("new-mnemonic", "fresh-wallets-coincide-after-fork",
                           "processes forked from one parent produced the same %d-word mnemonic %r" % (words, dup[:50]), {"mode": "fork", "words": words})
     ctx.notes["forked_children_compared"] = 12
+    # the operating system's source FAILS (NotImplementedError / OSError from os.urandom and random._urandom): there is no
+    # other source of entropy, so no wallet and no mnemonic come out
+    def failing(exc):
+        def feed(n):
+            raise exc("no entropy source")
+        return feed
+    from btc_hd_wallet import PaperWallet as _PW, bip39 as _b39
+    for exc in (NotImplementedError, OSError, PermissionError):
+        for words, how in ((12, "bip39"), (24, "wallet"), (18, "bip39")):
+            with EntropyTap(feed=failing(exc)):
+                try:
+                    m_ = _b39.mnemonic_from_entropy_bits(words * 32 // 3) if how == "bip39" else _PW.new_wallet(mnemonic_length=words).mnemonic
+                except BaseException:
+                    m_ = None
+            ctx.evaluations += 1
+            if m_ is not None:
+                ctx.violation("new-mnemonic", "wallet-although-os-source-failed",
+                              "a %d-word mnemonic was produced although every request to the operating system's source raised %s: %r"
+                              % (words, exc.__name__, m_[:40]), {"mode": "os-source-fails", "exc": exc.__name__})
+                break
     # wallets created by several THREADS at once (with preemption injected into the mnemonic module): still all
     # different, none of them the all-zero entropy, every checksum valid
     import sys
